@@ -171,6 +171,7 @@ func ruleGlobals(c *Ctx, rule string, roots []*ssa.Function, rootDesc string) {
 		how   string
 	}
 	acc := map[*ssa.Global][]access{}
+	mutM := c.mutatingMethods()
 	for _, fn := range sortedFns(reach) {
 		if !c.isRepoFn(fn) || fn.Name() == "init" {
 			continue
@@ -192,6 +193,13 @@ func ruleGlobals(c *Ctx, rule string, roots []*ssa.Function, rootDesc string) {
 					ch := traceAddr(x.X)
 					if g, ok := ch.Root.(*ssa.Global); ok && c.isRepoPkg(g.Pkg.Pkg) {
 						acc[g] = append(acc[g], access{in, false, "load " + ch.String()})
+						// a reference (map, slice, pointer) read out of the variable: if it is put somewhere or handed to code that may write
+						// through it, every later write through the alias is a write to shared memory
+						if isRefType(x.Type()) || hasRefField(x.Type()) {
+							if how := c.referenceEscapes(x, mutM, 0, map[ssa.Value]bool{}); how != "" {
+								acc[g] = append(acc[g], access{in, true, "the reference loaded from " + ch.String() + " " + how})
+							}
+						}
 					}
 				}
 			default:
@@ -862,39 +870,256 @@ func ruleCommandScope(c *Ctx, rule string) {
 			gens = append(gens, fn)
 		}
 	}
-	r.Floor(rule, "command generators calling generateSearchInstruction", len(gens), 3)
-	for _, g := range gens {
-		for _, f := range sortedKeys(written) {
-			ob := r.Ob(rule, fmt.Sprintf("%s resets GenState.%s before generating", fnName(g), f), c.pos(g.Pos()))
-			var resets []ssa.Instruction
-			instrsOf(g, func(in ssa.Instruction) {
-				if st, ok := in.(*ssa.Store); ok {
-					if fa, ok := st.Addr.(*ssa.FieldAddr); ok && types.Identical(deref(fa.X.Type()), genState) && fieldName(genState, fa.Field) == f && freshRef(st.Val, 0) {
-						resets = append(resets, in)
-					}
+	// resetsOf: the instructions of g that store a fresh value into GenState.f, directly or by calling a helper that does
+	resetsOf := func(g *ssa.Function, f string) []ssa.Instruction {
+		var resets []ssa.Instruction
+		instrsOf(g, func(in ssa.Instruction) {
+			if st, ok := in.(*ssa.Store); ok {
+				if fa, ok := st.Addr.(*ssa.FieldAddr); ok && types.Identical(deref(fa.X.Type()), genState) && fieldName(genState, fa.Field) == f && freshRef(st.Val, 0) {
+					resets = append(resets, in)
 				}
-			})
-			ok := true
-			why := ""
-			instrsOf(g, func(in ssa.Instruction) {
-				if sc := staticCallee(in); sc != nil && reachesWriter(sc, f) {
-					dom := false
-					for _, rs := range resets {
-						if instrDominates(rs, in) {
-							dom = true
+			}
+			if call, ok := in.(*ssa.Call); ok {
+				h := call.Call.StaticCallee()
+				if h == nil || !c.isRepoFn(h) || len(h.Blocks) == 0 || under[h] {
+					return
+				}
+				// a helper whose every path stores a fresh value into the field of the state it is handed
+				pdh := NewPostDom(h)
+				instrsOf(h, func(y ssa.Instruction) {
+					if st, ok := y.(*ssa.Store); ok {
+						if fa, ok := st.Addr.(*ssa.FieldAddr); ok && types.Identical(deref(fa.X.Type()), genState) && fieldName(genState, fa.Field) == f && freshRef(st.Val, 0) {
+							if _, isParam := fa.X.(*ssa.Parameter); isParam && pdh.PostDominates(st.Block(), h.Blocks[0]) {
+								resets = append(resets, in)
+							}
 						}
 					}
-					if !dom {
-						ok = false
-						why = fmt.Sprintf("the call to %s [%s] is not dominated by a store of a fresh value into state.%s", fnName(sc), c.pos(in.Pos()), f)
+				})
+			}
+		})
+		return resets
+	}
+	// unresetCalls: the calls in g that reach a writer of f and are not dominated by a reset in g
+	unresetCalls := func(g *ssa.Function, f string) []ssa.Instruction {
+		resets := resetsOf(g, f)
+		var out []ssa.Instruction
+		instrsOf(g, func(in ssa.Instruction) {
+			if sc := staticCallee(in); sc != nil && reachesWriter(sc, f) {
+				for _, rs := range resets {
+					if instrDominates(rs, in) {
+						return
 					}
 				}
-			})
-			if ok {
+				out = append(out, in)
+			}
+		})
+		return out
+	}
+	// per field: a function that generates without resetting is a helper of the command generators and the obligation moves to its
+	// callers (a helper such as generateSearchSequence(exprs, offset, state)); otherwise it is a command generator itself
+	baseReaches := reachesWriter
+	nreal := 0
+	for _, f := range sortedKeys(written) {
+		helpers := map[*ssa.Function]bool{}
+		reachesWriter = baseReaches
+		var real []*ssa.Function
+		for _, g := range gens {
+			ncallers := 0
+			for _, caller := range c.SrcFuncs("bytecode") {
+				if caller != g && !under[caller] && len(callsTo(caller, g)) > 0 {
+					ncallers++
+				}
+			}
+			anyResetSomewhere := false
+			for _, g2 := range c.SrcFuncs("bytecode") {
+				if len(resetsOf(g2, f)) > 0 {
+					anyResetSomewhere = true
+				}
+			}
+			if len(unresetCalls(g, f)) > 0 && len(resetsOf(g, f)) == 0 && ncallers > 0 && anyResetSomewhere {
+				helpers[g] = true
+			} else {
+				real = append(real, g)
+			}
+		}
+		if len(helpers) > 0 {
+			for h := range helpers {
+				for _, caller := range c.SrcFuncs("bytecode") {
+					if caller == h || under[caller] || helpers[caller] || len(callsTo(caller, h)) == 0 {
+						continue
+					}
+					dup := false
+					for _, g := range real {
+						if g == caller {
+							dup = true
+						}
+					}
+					if !dup {
+						real = append(real, caller)
+					}
+				}
+			}
+			reachesWriter = func(callee *ssa.Function, ff string) bool {
+				if helpers[callee] {
+					return true
+				}
+				return baseReaches(callee, ff)
+			}
+		}
+		sort.Slice(real, func(i, j int) bool { return fnName(real[i]) < fnName(real[j]) })
+		if len(real) > nreal {
+			nreal = len(real)
+		}
+		for _, g := range real {
+			ob := r.Ob(rule, fmt.Sprintf("%s resets GenState.%s before generating", fnName(g), f), c.pos(g.Pos()))
+			bad := unresetCalls(g, f)
+			if len(bad) == 0 {
 				ob.OKnt(fmt.Sprintf("a fresh value is stored into state.%s before every call that generates search instructions (field written by %s)", f, strings.Join(uniq(written[f]), ", ")))
 			} else {
+				in := bad[0]
+				why := fmt.Sprintf("the call to %s [%s] is not dominated by a store of a fresh value into state.%s", fnName(staticCallee(in)), c.pos(in.Pos()), f)
 				ob.Bad(fmt.Sprintf("GenState.%s is written while generating search instructions (%s) but %s does not re-create it first: %s — what one command records is seen by the next", f, strings.Join(uniq(written[f]), ", "), fnName(g), why))
 			}
 		}
+	}
+	reachesWriter = baseReaches
+	r.Floor(rule, "command generators calling generateSearchInstruction", nreal, 3)
+}
+
+// referenceEscapes: v holds (or contains) a reference read from shared memory. Returns "" when every use only reads through it
+// (lookup, index, range, len, a non-mutating method), otherwise a description of the use through which the referent can be written
+// or kept.
+func (c *Ctx) referenceEscapes(v ssa.Value, mut map[*ssa.Function]string, depth int, seen map[ssa.Value]bool) string {
+	if depth > 6 || seen[v] {
+		return ""
+	}
+	seen[v] = true
+	refs := v.Referrers()
+	if refs == nil {
+		return ""
+	}
+	for _, ref := range *refs {
+		switch u := ref.(type) {
+		case *ssa.DebugRef, *ssa.Lookup, *ssa.Range, *ssa.If:
+			continue
+		case *ssa.Index:
+			continue
+		case *ssa.IndexAddr:
+			// element address: a store through it is a write, a load is a read
+			for _, r2 := range *u.Referrers() {
+				if st, ok := r2.(*ssa.Store); ok && st.Addr == ssa.Value(u) {
+					return "is written through (element store at " + c.pos(st.Pos()) + ")"
+				}
+			}
+			continue
+		case *ssa.Field, *ssa.FieldAddr, *ssa.Extract, *ssa.ChangeType, *ssa.Phi, *ssa.Slice, *ssa.UnOp, *ssa.Convert:
+			if val, ok := ref.(ssa.Value); ok && (isRefType(val.Type()) || hasRefField(val.Type()) || isRefType(deref(val.Type()))) {
+				if how := c.referenceEscapes(val, mut, depth+1, seen); how != "" {
+					return how
+				}
+			}
+			continue
+		case *ssa.BinOp:
+			continue
+		case *ssa.MapUpdate:
+			if u.Map == v {
+				return "is written through (map update at " + c.pos(u.Pos()) + ")"
+			}
+			return "is stored into a map at " + c.pos(u.Pos())
+		case *ssa.Store:
+			if u.Val == v {
+				return "is stored into " + exprStr(u.Addr) + " at " + c.pos(u.Pos()) + " (the run-time state now aliases the shared object)"
+			}
+			continue
+		case *ssa.Call:
+			if b, ok := u.Call.Value.(*ssa.Builtin); ok {
+				switch b.Name() {
+				case "len", "cap":
+					continue
+				}
+				return "is passed to " + b.Name() + " at " + c.pos(u.Pos())
+			}
+			sc := u.Call.StaticCallee()
+			if sc != nil && c.isRepoFn(sc) {
+				if _, isMut := mut[sc]; !isMut && len(u.Call.Args) > 0 && u.Call.Args[0] == v && sc.Signature.Recv() != nil {
+					continue // a read-only method on it
+				}
+				// a function that only reads through the parameter it receives it in
+				readOnly := len(sc.Blocks) > 0
+				for i, a := range u.Call.Args {
+					if a != v {
+						continue
+					}
+					if i >= len(sc.Params) || c.referenceEscapes(sc.Params[i], mut, depth+1, seen) != "" {
+						readOnly = false
+					}
+				}
+				if readOnly {
+					continue
+				}
+				return "is handed to " + fnName(sc) + " at " + c.pos(u.Pos())
+			}
+			if sc != nil && sc.Pkg != nil && (sc.Pkg.Pkg.Path() == "strings" || sc.Pkg.Pkg.Path() == "unicode" || sc.Pkg.Pkg.Path() == "fmt" || sc.Pkg.Pkg.Path() == "strconv") {
+				continue
+			}
+			return "is passed to " + callName(&u.Call) + " at " + c.pos(u.Pos())
+		case *ssa.MakeInterface, *ssa.Return, *ssa.MakeClosure:
+			return "leaves the function at " + c.pos(ref.Pos())
+		}
+	}
+	return ""
+}
+
+// ruleOnePassGeneration implements C13.R9: the commands of a source are generated in one pass, in source order. Definitions are
+// looked up in the generator state when a command is generated, so a command sees exactly the definitions that precede it; a second
+// pass that generates some commands (say, all `set` commands) ahead of the others makes a later definition visible to an earlier
+// command.
+func ruleOnePassGeneration(c *Ctx, rule string) {
+	r := c.R
+	gb := c.Fn("bytecode", "GenerateBytecode")
+	gsT := c.NamedType("bytecode", "GenState")
+	if gb == nil || gsT == nil {
+		r.Ob(rule, "anchor bytecode.GenerateBytecode / GenState", "").Und("not found")
+		return
+	}
+	ob := r.Ob(rule, "GenerateBytecode generates the commands in a single loop", c.pos(gb.Pos()))
+	takesState := func(f *ssa.Function) bool {
+		if f == nil || !c.isRepoFn(f) {
+			return false
+		}
+		for _, p := range f.Params {
+			if types.Identical(deref(p.Type()), gsT) {
+				return true
+			}
+		}
+		return false
+	}
+	loops := map[*ssa.BasicBlock]bool{} // loop headers (smallest block index of the innermost loop) with generator calls
+	outside := 0
+	instrsOf(gb, func(in ssa.Instruction) {
+		call, ok := in.(*ssa.Call)
+		if !ok || !takesState(call.Call.StaticCallee()) {
+			return
+		}
+		l := innermostLoop(gb, call.Block())
+		if l == nil {
+			outside++
+			return
+		}
+		var hd *ssa.BasicBlock
+		for b := range l {
+			if hd == nil || b.Index < hd.Index {
+				hd = b
+			}
+		}
+		loops[hd] = true
+	})
+	switch {
+	case len(loops) == 1 && outside == 0:
+		ob.OKnt("every call that works on the generator state is made from one loop over the commands")
+	case len(loops) == 0:
+		ob.Und("no loop that calls a generator function was found")
+	default:
+		ob.Bad(fmt.Sprintf("generator functions are called from %d different loops (and %d place(s) outside a loop): some commands are generated ahead of commands that precede them in the source, so a later definition can leak into an earlier command", len(loops), outside))
 	}
 }
